@@ -24,10 +24,13 @@ REQUIRED_PROBES = {"quick": ("op_online_ok", "op_online_refused", "op_online_sil
                                 "s1f17_during_probe", "race", "op_online_without_communication")}
 EVIDENCE = {
     "level": "exploration",
-    "rule": ("all initial configurations (EQUIPMENT_OFFLINE / ATTEMPT_ONLINE / HOST_OFFLINE / ONLINE x LOCAL/REMOTE) x "
-             "control-state events linked+enabled or not x seeded sequences of operator switches (from an operator "
-             "thread) and host S1F15/S1F17/S1F3, with the attempt-online probe answered S1F2 / S1F0 / not at all; "
-             "non-trivial = at least one transition was taken; distinct = distinct (initial config, op sequence)"),
+    "rule": ("all initial configurations (EQUIPMENT_OFFLINE / ATTEMPT_ONLINE / HOST_OFFLINE / ONLINE x "
+             "LOCAL/REMOTE) x control-state events linked+enabled or not x seeded sequences of operator switches "
+             "(from an operator thread) and host S1F15/S1F17/S1F3, with the attempt-online probe answered S1F2 / "
+             "S1F0 / not at all, operator switch and host request issued at the same instant (outcome must equal "
+             "one of the two orders), phases without established communication (host leaves S1F13 unanswered after "
+             "a link loss); non-trivial = at least one transition was taken; distinct = distinct (initial config, "
+             "op sequence)"),
     "real": ["secsgem.gem.ControlStateMachine", "secsgem.gem.StateModelsCapability", "secsgem.gem.GemEquipmentHandler",
              "secsgem.gem.CollectionEventCapability (sender threads)", "secsgem.hsms.HsmsProtocol",
              "secsgem.common.Tcp*Connection"],
